@@ -493,8 +493,9 @@ def pick_nnz(rng, tier, big_ok=True):
 
 
 def mk_case(name, family, inputs, call, expr, rkind="sparse", post=None, expect_clause=None):
-    return {"name": name, "family": family, "fmt": inputs[0]["format"], "inputs": inputs, "call": call, "expr": expr,
-            "rkind": rkind, "post": post, "expect_clause": expect_clause}
+    op = call[0] + ("." + str(call[1]) if call[0] in ("reduce", "bin", "self2", "asformat") else "")
+    return {"name": name, "op": name.split(":")[0] + ":" + op, "family": family, "fmt": inputs[0]["format"], "inputs": inputs,
+            "call": call, "expr": expr, "rkind": rkind, "post": post, "expect_clause": expect_clause}
 
 
 def axis_subsets(nd):
@@ -851,9 +852,16 @@ def gen_cases(tier, rng, sc=None):
         cases.append(mk_case("coo:reshape(-1)", "shape", [big], ["reshape", -1], ("reshape", [prod(S3)], IN0)))
         idx = [("s", None, None, -1), FULL, ("s", 5, None, 3)]
         cases.append(mk_case(f"coo:x[{idx}]", "index", [big], ["getitem", idx], ("get", idx, IN0)))
-    # calls expected to run into the time limit first, so that they overlap with everything else
-    cases.sort(key=lambda c: 0 if c["expect_clause"] in (CL_T1, CL_V1) else 1)
-    return cases
+    # calls expected to run into the time limit first, so that they overlap with everything else; operands with
+    # thousands of stored elements spread out, so that they land in different Coq case files
+    slow = [c for c in cases if c["expect_clause"] in (CL_T1, CL_V1)]
+    bigs = [c for c in cases if c not in slow and max(len(s_["coords"]) for s_ in c["inputs"]) >= 1000]
+    rest = [c for c in cases if c not in slow and c not in bigs]
+    out = slow + rest
+    step = max(13, len(out) // (len(bigs) + 1)) if bigs else 13
+    for k, c in enumerate(bigs):
+        out.insert(min(len(out), 5 + k * step), c)
+    return out
 
 
 # ============================================================================ campaign
@@ -902,13 +910,13 @@ def campaign(build, tier, seed, report, budget=1):
             rss_max, rss_arg = r["rss_mb"], c["name"] + " shape=" + str(c["inputs"][0]["shape"])
         if isinstance(r, dict):
             secs_max = max(secs_max, r.get("secs", 0.0))
-        logical.append(prod(c["inputs"][0]["shape"]))
+        logical.append(max(prod(s_["shape"]) for s_ in c["inputs"]))
         if code == 0:
             continue
         kind = {1: "value", 2: "value", 3: "value", 4: "value", 5: "value", 6: "representation", 7: "representation"}[code]
         small = dict(c)
         small["inputs"] = [dict(s, coords=s["coords"][:400], data=s["data"][:400]) for s in c["inputs"]] if any(len(s["coords"]) > 400 for s in c["inputs"]) else c["inputs"]
-        viol.append({"property": "C16", "op": c["name"].split("[")[0] if c["family"] != "index" else c["fmt"] + ":getitem",
+        viol.append({"property": "C16", "op": c["op"], "call": c["name"],
                      "family": c["family"], "format": c["fmt"], "kind": kind, "clause": clause_of(c, r, code),
                      "code": code, "meaning": CODE_MEANING[code], "case": small,
                      "impl": {k: v for k, v in (r or {}).items() if k in ("k", "exc", "cls", "msg", "hang", "secs", "rss_mb", "shape", "repr", "crash")},
@@ -923,6 +931,11 @@ def campaign(build, tier, seed, report, budget=1):
     cov["branch_tags"] = dict(sorted(tags.items()))
     cov["logical_size_min"] = min(logical)
     cov["logical_size_max"] = max(logical)
+    hist = {}
+    for n in logical:
+        k = f"1e{len(str(n)) - 1}"
+        hist[k] = hist.get(k, 0) + 1
+    cov["logical_size_of_largest_operand_by_decade"] = dict(sorted(hist.items(), key=lambda kv: int(kv[0][2:])))
     cov["stored_elements_max"] = max(len(s["coords"]) for c in cases for s in c["inputs"])
     cov["peak_rss_delta_mb_max_over_passing_calls"] = rss_max
     cov["peak_rss_delta_argmax"] = rss_arg
